@@ -34,6 +34,7 @@ class Acc:
         self.samples = []
         self.caps = []              # caps hit, if any (then the run is not exhaustive)
         self.extra = {}
+        self.sig_counts = {}        # violation signature -> number of violations with it (recorded or not)
 
     def dim(self, name, letter, n=1):
         d = self.dims.setdefault(name, {})
@@ -50,9 +51,13 @@ class Acc:
         """kind: short aspect name; case: JSON-able replayable case (shrunk); sig: dict used for known-finding matching;
         full: the unshrunk case, used for the replay file when the shrunk one does not reproduce on its own"""
         self.n_violations += 1
-        if len(self.violations) < MAX_VIOL_PER_SHARD:
-            s = {'kind': kind}
-            s.update(sig or {})
+        s = {'kind': kind}
+        s.update(sig or {})
+        key = json.dumps(s, sort_keys=True, default=repr)
+        n = self.sig_counts.get(key, 0)
+        self.sig_counts[key] = n + 1
+        # keep the first violations of the shard, and always at least one exemplar of every distinct signature
+        if len(self.violations) < MAX_VIOL_PER_SHARD or (n == 0 and len(self.violations) < 8 * MAX_VIOL_PER_SHARD):
             v = {'kind': kind, 'case': case, 'detail': str(detail)[:600], 'sig': s}
             if full is not None and full != case:
                 v['full'] = full
@@ -63,13 +68,13 @@ class Acc:
             'evaluations': self.evaluations, 'transitions': self.transitions, 'nontrivial': self.nontrivial,
             'skipped': self.skipped, 'states': self.states, 'outcomes': self.outcomes, 'dims': self.dims,
             'violations': self.violations, 'n_violations': self.n_violations, 'samples': self.samples,
-            'caps': self.caps, 'extra': self.extra,
+            'caps': self.caps, 'extra': self.extra, 'sig_counts': self.sig_counts,
         }
 
 
 def _merge(results):
     m = {'evaluations': 0, 'transitions': 0, 'nontrivial': 0, 'skipped': 0, 'states': set(), 'outcomes': {},
-         'dims': {}, 'violations': [], 'n_violations': 0, 'samples': [], 'caps': [], 'extra': {}}
+         'dims': {}, 'violations': [], 'n_violations': 0, 'samples': [], 'caps': [], 'extra': {}, 'sig_counts': {}}
     for r in results:
         for k in ('evaluations', 'transitions', 'nontrivial', 'skipped', 'n_violations'):
             m[k] += r[k]
@@ -86,6 +91,8 @@ def _merge(results):
         if len(m['samples']) < 6:
             m['samples'].extend(r['samples'][:2])
         m['caps'].extend(r['caps'])
+        for k, v in r.get('sig_counts', {}).items():
+            m['sig_counts'][k] = m['sig_counts'].get(k, 0) + v
         for k, v in r['extra'].items():
             if isinstance(v, (int, float)):
                 m['extra'][k] = m['extra'].get(k, 0) + v
@@ -266,6 +273,12 @@ def run_check(prop, tier, seed, replay_path=None, jobs=None):
     for kid, (k, n) in sorted(known_hits.items()):
         print('KNOWN-FINDING: property=%s %s (%d case(s) this run; id=%s)' % (prop, k['what'], n, kid))
 
+    # violations by signature: a signature is known iff its exemplar matches a `known` finding
+    n_known_total = 0
+    for key, cnt in merged['sig_counts'].items():
+        if match_known(prop, {'sig': json.loads(key)}, known) is not None:
+            n_known_total += cnt
+    n_unknown_total = merged['n_violations'] - n_known_total
     wall = time.time() - t0
     cov = {
         'states': len(merged['states']),
@@ -294,7 +307,7 @@ def run_check(prop, tier, seed, replay_path=None, jobs=None):
         'coverage': cov,
         'assumptions': list(getattr(mod, 'ASSUMPTIONS', [])),
         'wall_s': round(wall, 2),
-        'violations': merged['n_violations'] - sum(n for _, n in known_hits.values()),
+        'violations': n_unknown_total,
     }
     # evidence is about /repo; runs against another tree (mutant scratch copies) must not overwrite it
     evdir = os.path.join(VERIF, 'evidence') if loader.target_repo() == '/repo' else \
@@ -307,10 +320,11 @@ def run_check(prop, tier, seed, replay_path=None, jobs=None):
     print('%s %s seed=%d: states=%d transitions=%d cases=%d nontrivial=%d outcomes=%d skipped=%d violations=%d '
           'known=%d wall=%.1fs%s' % (prop, tier, seed, cov['states'], cov['transitions'], cov['evaluations'],
                                      cov['distinct_nontrivial'], cov['distinct_outcomes'], cov['skipped_out_of_domain'],
-                                     ev['violations'], sum(n for _, n in known_hits.values()), wall,
+                                     ev['violations'], n_known_total, wall,
                                      '' if not merged['caps'] else ' CAPS=%s' % merged['caps']))
-    if merged['n_violations'] and exit_code == 0 and ev['violations'] > 0:
-        # unreported unknown violations beyond the cap still fail the check
+    if exit_code == 0 and n_unknown_total > 0:
+        # unknown violations that were not written out (beyond the caps) still fail the check
+        print('VIOLATION property=%s replay=%s' % (prop, os.path.join(VERIF, 'replays', 'run')))
         exit_code = 1
     return exit_code
 
